@@ -637,7 +637,7 @@ def evaluate(c, obs, model, E, sites, crash_sig):
         det = []
         for r, o in enumerate(ranks):
             h = o['hang']
-            det.append('rank %d: %s' % (r, ('blocked in %s (%s phase)' % (h['last'], h['phase'])) if h else
+            det.append('rank %d: %s' % (r, (('blocked in %s (%s phase)' if h['inop'] == 'inop=1' else 'stuck after %s (%s phase)') % (h['last'], h['phase'])) if h else
                                         ('returned %s' % o['ret'] if o['ret'] is not None else 'killed')))
         orc.append(('hang', '; '.join(det)))
     else:
@@ -750,20 +750,19 @@ def gen_cases(ctx):
                 sample(api, 3, 400)
             sample(api, 4, 120)
         else:
-            for v in classes_of(api)[:2]:
-                deviations(api, 3, v)
-            sample(api, 3, 12)
-            sample(api, 4, 6)
+            deviations(api, 3, classes_of(api)[0])
+            sample(api, 3, 6)
+            sample(api, 4, 3)
         # safe mode: errors become collective
         if thorough:
             exhaustive(api, 2, safe=1)
             sample(api, 3, 60, safe=1)
         else:
             deviations(api, 2, classes_of(api)[0], safe=1)
-            sample(api, 3, 6, safe=1)
+            sample(api, 3, 3, safe=1)
     # header I/O collective (romio_no_indep_rw), aggregation
-    for api in ['put_vara', 'put_varn', 'wait_all', 'fill_var_rec', 'get_vara']:
-        for v in classes_of(api)[:2]:
+    for api in (['put_vara', 'put_varn', 'wait_all', 'fill_var_rec', 'get_vara'] if thorough else ['put_vara', 'wait_all', 'fill_var_rec']):
+        for v in classes_of(api)[:2] if thorough else classes_of(api)[:1]:
             deviations(api, 2, v, hcoll=1)
             if thorough:
                 deviations(api, 3, v, hcoll=1)
@@ -785,19 +784,24 @@ def gen_cases(ctx):
                     deviations(api, 2, classes_of(api)[0], pre=pre, safe=safe, hcoll=hcoll)
                     if safe and not hcoll:
                         exhaustive(api, 2, pre=pre, safe=safe, hcoll=hcoll)
-                        sample(api, 3, 8, pre=pre, safe=safe, hcoll=hcoll)
+                        sample(api, 3, 4, pre=pre, safe=safe, hcoll=hcoll)
     # create / open
     for api, pre in [('create', 'none'), ('open', 'closed')]:
         for safe in (0, 1):
             for dup in (0, 1):
                 for hcoll in (0, 1):
                     exhaustive(api, 2, pre=pre, safe=safe, dup=dup, hcoll=hcoll)
-                    exhaustive(api, 3, pre=pre, safe=safe, dup=dup, hcoll=hcoll)
+                    if thorough or (dup == 0 and hcoll == 0):
+                        exhaustive(api, 3, pre=pre, safe=safe, dup=dup, hcoll=hcoll)
         exhaustive(api, 2, pre=pre, aggr=1)
     # calls without per-rank arguments, from every mode; per-rank HISTORY differs (independent puts, pending requests)
     for np in (2, 3, 4):
         for safe in (0, 1):
             for hcoll in (0, 1):
+                if not thorough and np == 3 and safe != hcoll:
+                    continue
+                if not thorough and np == 4 and (safe or hcoll):
+                    continue
                 kw = dict(safe=safe, hcoll=hcoll)
                 for api in ('enddef', 'close', 'abort'):
                     for pre in ('redef', 'new', 'redef_grow', 'redef_addrec', 'redef_addfix'):
